@@ -7,6 +7,7 @@ for l in open('/verif/properties.jsonl'):
 ROUND2 = '--round2' in sys.argv
 for pid in [a for a in sys.argv[1:] if not a.startswith('--')]:
     p = props[pid]
+    R2 = (" This is a SECOND round: an earlier round already produced the most obvious slips for this property (single flipped operators, dropped trims, swapped first/last), so go for subtler ones - interactions between two features, state carried across loop iterations or across blocks/files, rarely taken branches, multi-byte text, boundary positions (first/last line, column 1, end of file), option combinations." if ROUND2 else "")
     txt = f"""You are helping to evaluate a verification tool by seeding realistic bugs ("mutations") into a Rust project.
 
 The project is mennanov/blockwatch, a CLI linter that parses <block> tags in source comments (via tree-sitter) and validates rules (keep-sorted, keep-unique, line-pattern, line-count, affects/drift with a git diff on stdin, check-lua, check-ai). You have your OWN scratch git worktree of it at /tmp/seed_{pid} (work ONLY there and in /tmp/seed_{pid}.out; never touch /repo or /verif, and do not read anything under /verif). The sandbox has no network; build with `cd /tmp/seed_{pid} && CARGO_NET_OFFLINE=true cargo build --offline` and test with `CARGO_NET_OFFLINE=true cargo test --offline` (all 237 tests pass on the unmodified tree; first build takes a few minutes). NOTE: the worktree's `.git` is a file, so an empty directory /tmp/seed_{pid}/.hg has been created as the repository-root marker the integration tests need; leave it there. The binary is target/debug/blockwatch. It must run inside a directory tree that has a `.git` directory at its root (an empty `mkdir .git` is enough); a diff is given on stdin (`git diff -U0 | blockwatch list`, or a hand-written unified diff), `blockwatch list` prints blocks as JSON, plain `blockwatch` validates and prints diagnostics JSON on stderr with exit 1 on error-severity violations. When stdin is not a terminal and no glob args are given it expects a diff on stdin; pass globs (e.g. 'x.py') to scan files (use `< /dev/null`).
@@ -16,7 +17,7 @@ PROPERTY {pid}: {p['title']}
 Quantified over: {p['quantifier']['text']}
 Relevant code: {', '.join(p['anchors']['files'])}
 
-YOUR TASK: produce THREE different, independent source changes (each a separate patch against the unmodified worktree HEAD) that each BREAK this property while the crate still compiles and ALL existing tests still pass (`cargo test --offline` - run it and confirm 237 passed, 0 failed for each patch). Each change must look like a plausible programming slip or well-meant refactor/optimisation (off-by-one, wrong comparison operator, wrong variable, reordered statements, lost special case, boundary condition...), NOT an obvious sabotage, and it must need something SPECIFIC to manifest - an unusual input, a particular multi-step combination, a boundary value, two cooperating sites - not something that ordinary use would expose at once. Prefer changes in different functions/mechanisms for the three patches." + (" This is a SECOND round: an earlier round already produced the most obvious slips for this property (single flipped operators, dropped trims, swapped first/last), so go for subtler ones - interactions between two features, state carried across loop iterations or across blocks/files, rarely taken branches, multi-byte text, boundary positions (first/last line, column 1, end of file), option combinations." if ROUND2 else "") + "
+YOUR TASK: produce THREE different, independent source changes (each a separate patch against the unmodified worktree HEAD) that each BREAK this property while the crate still compiles and ALL existing tests still pass (`cargo test --offline` - run it and confirm 237 passed, 0 failed for each patch). Each change must look like a plausible programming slip or well-meant refactor/optimisation (off-by-one, wrong comparison operator, wrong variable, reordered statements, lost special case, boundary condition...), NOT an obvious sabotage, and it must need something SPECIFIC to manifest - an unusual input, a particular multi-step combination, a boundary value, two cooperating sites - not something that ordinary use would expose at once. Prefer changes in different functions/mechanisms for the three patches.{R2}
 
 For each patch i in 1..3 write into /tmp/seed_{pid}.out/ :
   - patch{{i}}.diff   : `git diff` output against HEAD (must apply with `git apply` to a clean checkout)
